@@ -16,7 +16,7 @@ META = {
                     "const types are usize",
                     "fuel: the model's OutOfFuel outcome is excluded by the theorems and never observed in the correspondence (fuel 200 >> term depth)",
                     "relate_sound assumes the invariants inv K U t of the table (established by new tables and preserved by every successful relate) and well-kinded, in-scope arguments (okt)"],
-    "quick_s": 70, "thorough_s": 600,
+    "quick_s": 85, "thorough_s": 600,
 }
 
 THEOREMS = ["relate_sound", "relate_sound_any_variance", "teq_sound_in_models", "teqm_sound_in_models",
@@ -303,7 +303,7 @@ def run(ctx):
     ctx.cov["relate_outcomes"] = stats
     ctx.cov["model_mismatches"] = mism_total
     ctx.cov["rule"] = ("scripts on one real InferenceTable: up to 3 universes, 8 variables (general/int/float/lifetime[/const]) in random universes, 1-4 relate calls per table on pairs derived from a common skeleton "
-                       "(variables swapped in/out, so that unifiable, cyclic and universe-violating pairs are frequent); families: the 11 relate scenarios of infer/test.rs, the full head-constructor sweep "
+                       "(variables swapped in/out, so that unifiable, cyclic and universe-violating pairs are frequent); families: the 11 relate scenarios of infer/test.rs, the deterministic through-bound family (1012 two-/three-step histories: a low-universe variable related with a type that reaches a higher-universe type / lifetime / const placeholder, or an unknown to be promoted, only through the stored value of an already-bound variable; 10 stored values x 7 nestings x both argument orders x both binding orders x 8 universe layouts), the full head-constructor sweep "
                        "(36 type forms pairwise, 7x7 lifetimes, 6x6 consts, 3 variances), the property's fragment under Invariant, lifetime-free types under all variances, and an extended stream (arrays/consts, aliases, fn pointers with binders). "
                        "non-trivial = a relate whose two terms are not both leaves; distinct by (pair, history length)")
     if not ok:
